@@ -201,8 +201,11 @@ func TestDrv_C17(t *testing.T) {
 		out   string
 	}
 	var hjobs []htmlJob
-	base := time.Unix(1700000000, 0)
+	// where the clocks of the attacks stand: the present, the zero time.Time (a first request at exactly that instant), the
+	// Unix epoch, before it
+	bases := []time.Time{time.Unix(1700000000, 0), time.Unix(1700000000, 0), {}, time.Unix(0, 0).UTC(), time.Unix(-2000000000, 0)}
 	for p := 0; p < plots; p++ {
+		base := bases[p%len(bases)]
 		na := 1 + r.Intn(3)
 		names := []string{"", "a", "50qps", "attack: B"}
 		if p%3 == 1 { // names of which one is the beginning of another
@@ -250,6 +253,9 @@ func TestDrv_C17(t *testing.T) {
 		for a := range atks {
 			atks[a].Name = names[a]
 			ms, sub := r.Intn(1000), r.Intn(1000000)
+			if a == 0 && p%len(bases) >= 2 {
+				ms, sub = 0, 0 // the first request of the first attack at the base instant itself
+			}
 			errRate := []float64{0, 0.1, 0.5, 1}[r.Intn(4)]
 			for s := 0; s < n; s++ {
 				if s > 0 {
